@@ -9,7 +9,8 @@ def fill(claim, na):
         "proof",
         "Lean 4 theorems over a Rat model of the coupling/weight code + differential correspondence with the real functions",
         "For all rational EW parameters, Q2, polarisation, CKM2, nf and projectiles the model's LO weight maps equal the PDG NC expressions and the masked CKM sums (theorems in Properties/C02.lean); the model is tied to the real get_weight/get_fl11_weight/nc_weights/cc_weights*/Combiner by exact-input correspondence on every run; the real LO operator at grid nodes is compared with an independent evaluation of the same formulas.",
-        TB + "Modelled, not verified: IEEE rounding of the Python arithmetic; the spec formulas are hand-transcribed from PDG/fact.rst; the Kronecker-delta property of the basis at nodes is observed here and proved under C19.",
+        TB + "Known finding F29: at the grid node x = 1 the LO operator is 0 (conv.convolution's empty-domain exit drops the delta term too); every other node, the lowest included, is checked. "
+        + "Modelled, not verified: IEEE rounding of the Python arithmetic; the spec formulas are hand-transcribed from PDG/fact.rst; the Kronecker-delta property of the basis at nodes is observed here and proved under C19.",
         "DESIGN.md 6/C02",
     )
     claim(
@@ -57,7 +58,8 @@ def fill(claim, na):
         "proof",
         "Lean 4 theorems: RGE residuals of the model's scale-variation terms vanish over an arbitrary commutative Q-algebra; renormalisation re-expansion as polynomial identities with explicit remainders; key/switch lemmas on the executable model; eko's flavour-space projectors (regenerated as exact rationals) decided to be matrix units and lifted to Mathlib matrices, giving the RGE on flavour x x-space with no hypothesis on the projectors; the executable model is compared with the real compute_local (stubbed convolutions, integer operators)",
         "For every choice of splitting kernels, coefficient functions, beta0, beta1: the (1,1), (2,1), (2,2) factorisation terms built by the model's sector_mapping make the muF-derivative vanish through a_s^2 (singlet with gluon mixing and the three non-singlet sectors); the ren_coeffs table is exactly the a_s(muF)->a_s(muR) re-expansion through a_s^3; switching a variation off removes exactly the entries carrying its log; intrinsic kernels never get a factorisation log; with eko's own projectors for nf=3..6 the same three residuals vanish as operators on flavour (x) x space (fact_rge_eko). The same generic model, instantiated on matrices, reproduces the real compute_local tensors for every key on random configurations each run.",
-        TB + "Hypothesis `Products` (the convolved labels are products of their factors) is checked on Mellin moments of the real kernels; that DGLAP evolution in flavour space is sum_s pi_s (x) P_s is eko's convention; muF terms beyond a_s^2 are a TODO in the source.",
+        TB + "Known finding F28: polarised observables take the unpolarised splitting functions in their ln(muF) terms (the RGE theorems are parametric in the kernels; which kernels the code's table holds is observed by fact_log_uses_the_kernels_of_the_observable). "
+        + "Hypothesis `Products` (the convolved labels are products of their factors) is checked on Mellin moments of the real kernels; that DGLAP evolution in flavour space is sum_s pi_s (x) P_s is eko's convention; muF terms beyond a_s^2 are a TODO in the source.",
         "DESIGN.md 6/C05",
     )
     claim(
